@@ -4,7 +4,7 @@
 From AV Require Import Base.Util Model.Consumer Proofs.ConsumerBase Proofs.ConsumerFrame Proofs.ConsumerC13
   Proofs.ConsumerStop Proofs.ConsumerStopOk Proofs.ConsumerC13Top Proofs.ConsumerInv Proofs.ConsumerShut Proofs.ConsumerRun
   Proofs.ConsumerFuel Proofs.ConsumerShutFlags Proofs.ConsumerNotStarted Proofs.ConsumerFuelEnoughStop
-  Proofs.ConsumerFuelEnough.
+  Proofs.ConsumerFuelEnough Proofs.ConsumerFuelEnoughLoop Proofs.ConsumerFuelEnoughRun.
 Open Scope Z_scope.
 
 (* In EVERY state in which stop() can be called (not already inside stop(), not inside the auto-commit timer callback
@@ -160,8 +160,7 @@ Print Assumptions C13_shutdown_commits_step.
 
 (* The fuel hypothesis of the run-level theorems does not depend on the fuel chosen: a run that never ran out of fuel is
    the same run (same states, same outputs) under every larger fuel; likewise one nested execution and one event.
-   (That SOME fuel suffices for every input - it needs fuel linear in the number of processor blocks and commit waiters -
-   is not proved; the harness derives the fuel from the input size and confirms it on every case by trace equality.) *)
+   (That some fuel suffices for every input is C13_fuel_enough below.) *)
 Theorem C13_fuel_monotone : forall f f', (f <= f')%nat -> forall evs s,
   forallb (fun t => fuel_ok (match t with (_, _, o, _) => o end)) (run_steps f s evs) = true ->
   run_steps f' s evs = run_steps f s evs.
@@ -193,12 +192,52 @@ Proof. exact stopping_enough. Qed.
 Print Assumptions C13_stopping_fuel_enough.
 (* ... and for the commit side in EVERY state: the completion of shutdown() (_commit_and_stop, its success / failure
    callbacks incl. the re-commit of 7687afc and the final stop()), a commit waiter firing, the delivery of a commit result
-   to all waiters.  Bound BC: linear in the number of commit waiters.  NOT covered (see DESIGN 10.x): the message loop
-   (KProcLoop / KFetchResp / KFireProc), hence the fetch-reply and processor-result events and whole runs. *)
+   to all waiters.  Bound BC: linear in the number of commit waiters. *)
 Theorem C13_commit_side_fuel_enough : forall fuel k s r s' o,
   run fuel k s = (r, s', o) -> isC k -> (BC k s <= fuel)%nat -> PostC k s s' o.
 Proof. exact commit_side_enough. Qed.
 Print Assumptions C13_commit_side_fuel_enough.
+
+(* ... the message loop in EVERY state of an accepted configuration (acn_ok: 0 <= auto_commit_every_n, which the constructor
+   guarantees - consumer.py:208-209 raises ValueError otherwise; with a negative value the model's loop would hand over
+   empty blocks for ever): _process_messages, _handle_fetch_response, the processor result firing.  Bound BL: 4 * (messages
+   still to hand over + messages of the reply parked behind them) + commit waiters + constant ... *)
+Theorem C13_message_loop_fuel_enough : forall fuel k s r s' o,
+  run fuel k s = (r, s', o) -> isL k -> acn_ok s -> (BL k s <= fuel)%nat -> PostL k s s' o.
+Proof. exact loop_enough. Qed.
+Print Assumptions C13_message_loop_fuel_enough.
+(* ... every event in every state between two events (bound BE) ... *)
+Theorem C13_step_fuel_enough : forall fuel s e s' o, s_pend s = [] -> acn_ok s -> (BE e s <= fuel)%nat ->
+  step fuel s e = (s', o) -> fuel_ok o = true.
+Proof. exact step_enough. Qed.
+Print Assumptions C13_step_fuel_enough.
+(* ... and whole runs: for every accepted configuration and EVERY event sequence there is a fuel from which on the
+   interpreter never runs out of fuel.  (The predicate is Model/ConsumerLog.v run_fuel_ok unfolded.) *)
+Theorem C13_fuel_enough : forall n0 c buf evs, cfg_ok c = true ->
+  exists fuel0, forall fuel, (fuel0 <= fuel)%nat ->
+    forallb (fun t => fuel_ok (match t with (_, _, o, _) => o end)) (run_steps fuel (init c n0 buf) evs) = true.
+Proof. exact fuel_enough. Qed.
+Print Assumptions C13_fuel_enough.
+(* hence the run-level theorems hold without the fuel hypothesis, for all sufficiently large fuel *)
+Theorem C13_reachable_invariant_all : forall n0 c buf evs, cfg_ok c = true ->
+  exists fuel0, forall fuel, (fuel0 <= fuel)%nat ->
+    Forall (fun t => Reach n0 (t_pre t) /\ Reach n0 (t_post t)) (run_steps fuel (init c n0 buf) evs).
+Proof. exact reachable_all. Qed.
+Print Assumptions C13_reachable_invariant_all.
+Theorem C13_every_stop_quiescent_all : forall n0 c buf evs, cfg_ok c = true ->
+  exists fuel0, forall fuel, (fuel0 <= fuel)%nat -> Forall (stop_ok n0) (run_steps fuel (init c n0 buf) evs).
+Proof. exact every_stop_quiescent_all. Qed.
+Print Assumptions C13_every_stop_quiescent_all.
+Theorem C13_shutdown_commits_all : forall n0 c buf evs, cfg_ok c = true ->
+  exists fuel0, forall fuel, (fuel0 <= fuel)%nat ->
+    forallb (fun t => forallb (shutd_ok (c_group c)) (t_out t)) (run_steps fuel (init c n0 buf) evs) = true.
+Proof. exact shutdown_commits_all. Qed.
+Print Assumptions C13_shutdown_commits_all.
+Theorem C13_not_started_idle_all : forall n0 c buf evs, cfg_ok c = true ->
+  exists fuel0, forall fuel, (fuel0 <= fuel)%nat ->
+    forallb (fun t => not_started_idle (t_post t)) (run_steps fuel (init c n0 buf) evs) = true.
+Proof. exact not_started_idle_all. Qed.
+Print Assumptions C13_not_started_idle_all.
 
 (* ---------------- non-vacuity: stop() with a commit in flight, a reply parked behind a pending processor ----------- *)
 Definition ex_cfg := mkCfg true 1 true 0 None 7.
@@ -231,3 +270,6 @@ Example ex_interrupted_restart :
   flat_map (enc_out 7) (snd (run_events 60 ex_s2 [EStart 5; EFetchOk [5; 6] false]))
   = [22; 5; 4096; 25; 3; -1; 34; 0; 37; -1000; -1000;  24; 1; 5; 25; 1; -1; 37; -1000; -1000].
 Proof. vm_compute. repeat split; reflexivity. Qed.
+(* the configurations the constructor accepts; a negative auto_commit_every_n is rejected (consumer.py:208-209) *)
+Example ex_cfg_ok : cfg_ok ex_cfg = true /\ cfg_ok (mkCfg true (-1) true 0 None 7) = false.
+Proof. vm_compute. split; reflexivity. Qed.
